@@ -46,6 +46,34 @@ fn def_text(kind: &str, name: &str) -> String {
     }
 }
 
+/// MC_LinkFiles: every file (re)opens module A and holds one container with a member `id`; a doc comment with a link
+/// spelled `id` (or qualified) sits on the container or on one of its members.  What the link designates is decided by
+/// the element the comment documents, whatever the order of the files.
+fn link_files(case: &Value) -> Vec<String> {
+    let files = case["linkfiles"].as_array().cloned().unwrap_or_default();
+    files
+        .iter()
+        .enumerate()
+        .map(|(k, f)| {
+            let k = k + 1;
+            let link = match f["spell"].as_str().unwrap_or("bare") {
+                "bare" => "id".to_owned(),
+                "own" => format!("C{k}::id"),
+                "first" => "C1::id".to_owned(),
+                _ => format!("A::C{k}::id"),
+            };
+            let text = if f["tag"] == "see" { format!("/// Text.\n/// @see {link}") } else { format!("/// See {{@link {link}}} for more.") };
+            let on_container = f["on"] == "container";
+            let (c1, c2) = if on_container { (format!("{text}\n"), String::new()) } else { (String::new(), format!("  {}\n", text.replace("\n", "\n  "))) };
+            match f["kind"].as_str().unwrap_or("struct") {
+                "struct" => format!("module A\n{c1}struct C{k} {{\n{c2}  a: int32\n  id: bool\n}}\n"),
+                "interface" => format!("module A\n{c1}interface C{k} {{\n{c2}  a()\n  id(x: int32)\n}}\n"),
+                _ => format!("module A\n{c1}enum C{k} {{\n{c2}  a\n  id\n}}\n"),
+            }
+        })
+        .collect()
+}
+
 fn collide_texts(case: &Value) -> Vec<String> {
     let arr = case["arr"].as_str().unwrap_or("defmod");
     let k1 = case["k1"].as_str().unwrap_or("struct");
@@ -112,6 +140,8 @@ impl Family for Repro {
         self.counter += 1;
         let texts: Vec<String> = if case.get("k1").is_some() {
             collide_texts(case)
+        } else if case.get("linkfiles").is_some() {
+            link_files(case)
         } else if case["many"] == true {
             // the many-lints program of MC_ManyLints: two files with lints at the same rows and columns, some suppressed
             crate::fam_lints::many_texts(case)
@@ -128,8 +158,13 @@ impl Family for Repro {
         let dir = std::path::PathBuf::from(format!("{work}/repro-{}/{}", std::process::id(), self.counter));
         let _ = std::fs::remove_dir_all(&dir);
         std::fs::create_dir_all(&dir).unwrap();
-        let names: Vec<String> = (0..n).map(|i| format!("f{i}.slice")).collect();
+        // every file has the same base name, one directory level deeper than the one before (t.slice, x1/t.slice,
+        // x1/x2/t.slice ..): each path is a suffix of the next
+        let names: Vec<String> = (0..n).map(|i| format!("{}t.slice", (1..=i).map(|k| format!("x{k}/")).collect::<String>())).collect();
         for (i, t) in texts.iter().enumerate() {
+            if let Some(parent) = dir.join(&names[i]).parent() {
+                std::fs::create_dir_all(parent).unwrap();
+            }
             std::fs::write(dir.join(&names[i]), t).unwrap();
         }
         let rendered = json!({"files": texts});
@@ -162,7 +197,7 @@ impl Family for Repro {
                 let mut per_file = serde_json::Map::new();
                 if accepted {
                     for f in &state.files {
-                        per_file.insert(f.relative_path.clone(), json!(hash_str(&ast_project::file(f).to_string()).to_string()));
+                        per_file.insert(f.relative_path.clone(), json!(hash_str(&format!("{}{}", ast_project::file(f), ast_project::comments(f))).to_string()));
                     }
                 }
                 let diags = state.into_diagnostics(&options);
@@ -196,7 +231,7 @@ impl Family for Repro {
                 let mut per_file = serde_json::Map::new();
                 if accepted {
                     for f in &state.files {
-                        per_file.insert(f.relative_path.clone(), json!(hash_str(&ast_project::file(f).to_string()).to_string()));
+                        per_file.insert(f.relative_path.clone(), json!(hash_str(&format!("{}{}", ast_project::file(f), ast_project::comments(f))).to_string()));
                     }
                 }
                 let diags = state.into_diagnostics(&options);
